@@ -107,3 +107,9 @@ Qed.
 
 Global Instance exact_block sz : Exact (dec_block sz) enc_block.
 Proof. unfold enc_block, dec_block. intros s a r H. dec_inv. use_exact. cbn. app_norm. Qed.
+
+(* String / multisig records (not reachable from Block, listed for completeness of the codec) *)
+Global Instance exact_string : Exact dec_string enc_string.
+Proof. unfold dec_string, enc_string. intros s a r H. dec_inv. use_exact. reflexivity. Qed.
+Global Instance exact_klrki : Exact dec_klrki enc_klrki.
+Proof. unfold dec_klrki, enc_klrki, dec_hash, dec_arr. exact_tac. Qed.
